@@ -197,7 +197,7 @@ def run(tier, seed):
     run.assumptions = ["expansion points are those with rational jets: 1-3 per module, not every time and position of the domain",
                        "free parameters of the modules are set to rationals (Collins-Stewart gamma in {10/7, 1}; Rosquist-Jantzen s, q, k, m arbitrary rationals - its "
                        "stress-energy tensor is G/kappa for any of them; Non_diagonal wave number 1/2 or 1; EdS t_today in {1, 3}; LCDM (Omega_m, H0) in "
-                       "{(9/25, 1/2), (16/25, 1), (9/25, 2/3)}, expanded where a = 1); the shipped default values of irrational parameters are not exercised",
+                       "{(9/25, 1/2), (16/25, 1), (9/25, 2/3)}, expanded where a = a_today; a_today in {1, 3, 1/4}); the shipped default values of irrational parameters are not exercised",
                        "not covered: " + "; ".join(f"{k}: {v}" for k, v in S.NOT_COVERED.items())]
     return run.finish()
 
